@@ -67,7 +67,7 @@ def parse_smtlib(text: str):  # noqa: C901
                 if char in ('\n', '\r'):
                     break
             comment = ''.join(comment)
-            if cur_expr:
+            if cur_expr is not None:
                 cur_expr.append(Node(comment))
             else:
                 yield Node(comment)
